@@ -8,8 +8,12 @@
 //
 //	H K <stream> <locator> <origin> <value tokens> ; <P|E|O> <n> <keys...> ;
 //
-// per case. <stream>: v = locator derived from the value's shape, m = mutated
-// (malformed) locator, x = fixture, c = read from a .hist file. <origin>: `G`
+// per case. A history is either ONE such line, or (stateful stream) an `H K`
+// line followed by event lines `K <stream> <locator> <origin> <value> ; ... ;`
+// which are further calls made in the same process one after the other.
+// <stream>: v = locator derived from the value's shape, m = mutated
+// (malformed) locator, x = fixture, c = read from a .hist file, s/sv/sm/sx =
+// stateful history, r = re-run of an earlier case at the end of the run. <origin>: `G`
 // (value rebuilt from the tokens when replayed) or `X <fixture> <seed>`.
 // Byte strings are hex, `-` is the empty string, `'abc` is accepted on input
 // for plain text. Two more case kinds check the modelled library functions
@@ -48,8 +52,8 @@ func (r *vkRng) next() uint64 {
 	z = (z ^ (z >> 27)) * 0x94D049BB133111EB
 	return z ^ (z >> 31)
 }
-func (r *vkRng) intn(n int) int     { return int(r.next() % uint64(n)) }
-func (r *vkRng) pct(p int) bool     { return r.intn(100) < p }
+func (r *vkRng) intn(n int) int         { return int(r.next() % uint64(n)) }
+func (r *vkRng) pct(p int) bool         { return r.intn(100) < p }
 func (r *vkRng) str(xs []string) string { return xs[r.intn(len(xs))] }
 
 // ---------------------------------------------------------------- encoding
@@ -1021,7 +1025,9 @@ var vkFixtures = []vkFixture{
 		[]string{"key", "inner2.key", "inner2", "vKInner.key", "x"}},
 	{"embshadow", func(g *vkRng) interface{} { return &vkEmbShadow{VKInner: vkInnerOf(g), Key: "outer"} },
 		[]string{"key", "inner2.key", "vKInner.key"}},
-	{"embambig", func(g *vkRng) interface{} { return &vkEmbAmbig{VKInner: vkInnerOf(g), vkNested: *vkNestedOf2(g), X: "x"} },
+	{"embambig", func(g *vkRng) interface{} {
+		return &vkEmbAmbig{VKInner: vkInnerOf(g), vkNested: *vkNestedOf2(g), X: "x"}
+	},
 		[]string{"key", "inner2.key", "repeatedString", "x"}},
 	{"embdeep", func(g *vkRng) interface{} {
 		d := &vkEmbDeep{}
@@ -1119,20 +1125,186 @@ func vkNestedOf2(g *vkRng) *vkNested {
 	}
 }
 
+// ---------------------------------------------------------------- twin types (stateful stream)
+// Families of DIFFERENT Go types that print identically under
+// reflect.Type.String() ("grpcgcp.vkSession", ...): function-local types with
+// the same name declared in different functions, with different field order, a
+// field present in one and missing in another, the same field name with string
+// / non-string type.  Anything in the implementation that keys leftover state
+// by the printed type name (or by the locator) confuses them; the calls are
+// made alternately within one multi-event history.
+func vkTwinSessionA(g *vkRng) interface{} {
+	type vkSession struct {
+		Name    string
+		Token   string
+		Aliases []string
+	}
+	return &vkSession{Name: "a-name-" + g.str(vkStrings), Token: "a-token", Aliases: []string{"a-a1", "a-a2"}}
+}
+
+func vkTwinSessionB(g *vkRng) interface{} {
+	type vkSession struct {
+		Aliases []string
+		Token   string
+		Labels  map[string]string
+		Name    string
+	}
+	return &vkSession{Name: "b-name-" + g.str(vkStrings), Token: "b-token", Aliases: []string{"b-a1"}, Labels: map[string]string{"k": "v"}}
+}
+
+func vkTwinSessionC(g *vkRng) interface{} {
+	type vkSession struct {
+		Token string
+	}
+	return &vkSession{Token: "c-token-" + g.str(vkStrings)}
+}
+
+func vkTwinSessionD(g *vkRng) interface{} {
+	type vkSession struct {
+		Token   int
+		Aliases []*string
+		Name    *string
+		Labels  string
+	}
+	n := "d-name-" + g.str(vkStrings)
+	a := "d-a1"
+	return vkSession{Token: 7, Aliases: []*string{&a, nil}, Name: &n, Labels: "d-labels"}
+}
+
+func vkTwinReqA(g *vkRng) interface{} {
+	type vkNode struct {
+		Key string
+		Val string
+	}
+	type vkReq struct {
+		Id     string
+		Items  []*vkNode
+		Parent *vkNode
+	}
+	r := &vkReq{Id: "a-id", Parent: &vkNode{Key: "a-pk", Val: "a-pv"}}
+	for i := g.intn(3); i >= 0; i-- {
+		r.Items = append(r.Items, &vkNode{Key: "a-k" + strconv.Itoa(i), Val: "a-v" + strconv.Itoa(i)})
+	}
+	return r
+}
+
+func vkTwinReqB(g *vkRng) interface{} {
+	type vkNode struct {
+		Val  string
+		Key  string
+		Tags []string
+	}
+	type vkReq struct {
+		Parent *vkNode
+		Id     int64
+		Items  []*vkNode
+	}
+	r := &vkReq{Id: 5}
+	if g.pct(70) {
+		r.Parent = &vkNode{Key: "b-pk", Val: "b-pv", Tags: []string{"b-pt"}}
+	}
+	for i := g.intn(3); i > 0; i-- {
+		r.Items = append(r.Items, &vkNode{Key: "b-k" + strconv.Itoa(i), Val: "b-v" + strconv.Itoa(i), Tags: []string{"b-t"}})
+	}
+	return r
+}
+
+func vkTwinReqC(g *vkRng) interface{} {
+	type vkNode struct {
+		Tags []string
+		Key  *string
+	}
+	type vkReq struct {
+		Items []vkNode
+		Id    string
+	}
+	k := "c-k-" + g.str(vkStrings)
+	return &vkReq{Id: "c-id", Items: []vkNode{{Tags: []string{"c-t1", "c-t2"}, Key: &k}, {Key: &k}}}
+}
+
+func vkTwinMixedA(g *vkRng) interface{} {
+	type vkMixed struct {
+		Key string
+		N   int
+		L   []string
+	}
+	return &vkMixed{Key: "a-key-" + g.str(vkStrings), N: 1, L: []string{"a-l1", "a-l2"}}
+}
+
+func vkTwinMixedB(g *vkRng) interface{} {
+	type vkMixed struct {
+		N   string
+		Key int
+		L   map[string]string
+	}
+	return &vkMixed{N: "b-n-" + g.str(vkStrings), Key: 2, L: map[string]string{"a": "b"}}
+}
+
+func vkTwinMixedC(g *vkRng) interface{} {
+	type vkMixed struct {
+		L   []string
+		Key []string
+		N   *string
+	}
+	n := "c-n"
+	m := vkMixed{Key: []string{"c-key1", "c-key2"}, N: &n}
+	if g.pct(50) {
+		m.L = []string{"c-l1"}
+	}
+	return m
+}
+
+type vkTwinFamily struct {
+	members []string // fixture names
+	locs    []string
+}
+
+var vkTwinFixtures = []vkFixture{
+	{"twin.session.a", vkTwinSessionA, []string{"name", "token", "aliases", "labels"}},
+	{"twin.session.b", vkTwinSessionB, []string{"name", "token", "aliases", "labels"}},
+	{"twin.session.c", vkTwinSessionC, []string{"name", "token", "aliases", "labels"}},
+	{"twin.session.d", vkTwinSessionD, []string{"name", "token", "aliases", "labels"}},
+	{"twin.req.a", vkTwinReqA, []string{"id", "items.key", "items.val", "items.tags", "parent.key", "parent.val", "parent.tags"}},
+	{"twin.req.b", vkTwinReqB, []string{"id", "items.key", "items.val", "items.tags", "parent.key", "parent.val", "parent.tags"}},
+	{"twin.req.c", vkTwinReqC, []string{"id", "items.key", "items.val", "items.tags", "parent.key", "parent.val", "parent.tags"}},
+	{"twin.mixed.a", vkTwinMixedA, []string{"key", "n", "l"}},
+	{"twin.mixed.b", vkTwinMixedB, []string{"key", "n", "l"}},
+	{"twin.mixed.c", vkTwinMixedC, []string{"key", "n", "l"}},
+}
+
+var vkTwinFamilies = []vkTwinFamily{
+	{[]string{"twin.session.a", "twin.session.b", "twin.session.c", "twin.session.d"}, []string{"name", "token", "aliases", "labels"}},
+	{[]string{"twin.req.a", "twin.req.b", "twin.req.c"}, []string{"id", "items.key", "items.val", "items.tags", "parent.key", "parent.val", "parent.tags"}},
+	{[]string{"twin.mixed.a", "twin.mixed.b", "twin.mixed.c"}, []string{"key", "n", "l"}},
+}
+
 func vkFixtureByName(name string) *vkFixture {
 	for i := range vkFixtures {
 		if vkFixtures[i].name == name {
 			return &vkFixtures[i]
 		}
 	}
+	for i := range vkTwinFixtures {
+		if vkTwinFixtures[i].name == name {
+			return &vkTwinFixtures[i]
+		}
+	}
 	return nil
 }
 
 // ---------------------------------------------------------------- running one case
+type vkCase struct {
+	stream string
+	loc    string
+	origin string // "G" or "X <name> <seed>"
+	msg    interface{}
+}
+
 type vkRunner struct {
 	w      *bufio.Writer
 	stats  map[string]int
 	ncases int
+	inHist bool // a K-case history is open (events may follow)
 }
 
 func (r *vkRunner) count(k string) { r.stats[k]++ }
@@ -1157,18 +1329,25 @@ func vkKindName(v reflect.Value) string {
 	return v.Kind().String()
 }
 
-// origin is "G" or "X <name> <seed>"
-func (r *vkRunner) runKeys(stream, loc, origin string, msg interface{}) {
-	d := &vkDumper{typed: origin == "G"}
-	v := reflect.ValueOf(msg)
+// runKeys runs one case. event=false starts a new history (`H K ...`),
+// event=true appends the case to the current history (`K ...`).
+func (r *vkRunner) runKeys(c vkCase, event bool) {
+	d := &vkDumper{typed: c.origin == "G"}
+	v := reflect.ValueOf(c.msg)
 	d.value(v, 0)
-	kind, keys := vkCall(loc, msg)
-	fmt.Fprintf(r.w, "H K %s %s %s %s ; %s %d", stream, vkHex(loc), origin, strings.Join(d.toks, " "), kind, len(keys))
+	kind, keys := vkCall(c.loc, c.msg)
+	prefix := "H K"
+	if event {
+		prefix = "K"
+	}
+	fmt.Fprintf(r.w, "%s %s %s %s %s ; %s %d", prefix, c.stream, vkHex(c.loc), c.origin, strings.Join(d.toks, " "), kind, len(keys))
 	for _, k := range keys {
 		fmt.Fprintf(r.w, " %s", vkHex(k))
 	}
 	fmt.Fprintf(r.w, " ;\n")
+	r.inHist = true
 	r.ncases++
+	stream := c.stream
 	r.count("stream:" + stream)
 	r.count("outcome:" + stream + ":" + kind)
 	if kind == "O" {
@@ -1180,7 +1359,7 @@ func (r *vkRunner) runKeys(stream, loc, origin string, msg interface{}) {
 	}
 	r.count("topkind:" + vkKindName(v))
 	r.count(fmt.Sprintf("depth:%02d", d.maxDepth))
-	r.count(fmt.Sprintf("segments:%d", strings.Count(loc, ".")+1))
+	r.count(fmt.Sprintf("segments:%d", strings.Count(c.loc, ".")+1))
 	if d.pruned > 0 {
 		r.count("pruned-state")
 	}
@@ -1188,6 +1367,7 @@ func (r *vkRunner) runKeys(stream, loc, origin string, msg interface{}) {
 
 func (r *vkRunner) runTitle(in string) {
 	fmt.Fprintf(r.w, "H T %s ; %s ;\n", vkHex(in), vkHex(strings.Title(in)))
+	r.inHist = false
 	r.ncases++
 	r.count("stream:title")
 }
@@ -1199,17 +1379,27 @@ func (r *vkRunner) runSplit(in string) {
 		fmt.Fprintf(r.w, " %s", vkHex(p))
 	}
 	fmt.Fprintf(r.w, " ;\n")
+	r.inHist = false
 	r.ncases++
 	r.count("stream:split")
 }
 
-// one line of a .hist file (the part before the first ';')
+// one line of a .hist file (the part before the first ';'): `H K ...`, `H T ...`,
+// `H S ...`, or an event `K ...` continuing the history opened by the last `H K`.
 func (r *vkRunner) runHistLine(fs []string) (err error) {
 	defer func() {
 		if rec := recover(); rec != nil {
 			err = fmt.Errorf("%v", rec)
 		}
 	}()
+	event := false
+	if len(fs) > 0 && fs[0] == "K" {
+		if !r.inHist {
+			return fmt.Errorf("K event outside a history")
+		}
+		event = true
+		fs = append([]string{"H"}, fs...)
+	}
 	if len(fs) < 3 || fs[0] != "H" {
 		return fmt.Errorf("not a case line")
 	}
@@ -1245,7 +1435,7 @@ func (r *vkRunner) runHistLine(fs []string) (err error) {
 			if v.IsValid() {
 				msg = v.Interface()
 			}
-			r.runKeys("c", loc, "G", msg)
+			r.runKeys(vkCase{"c", loc, "G", msg}, event)
 		case "X":
 			if len(fs) < 7 {
 				return fmt.Errorf("short X origin")
@@ -1255,7 +1445,7 @@ func (r *vkRunner) runHistLine(fs []string) (err error) {
 			if fx == nil || e != nil {
 				return fmt.Errorf("unknown fixture %q", fs[5])
 			}
-			r.runKeys("c", loc, "X "+fs[5]+" "+fs[6], fx.build(&vkRng{s: seed}))
+			r.runKeys(vkCase{"c", loc, "X " + fs[5] + " " + fs[6], fx.build(&vkRng{s: seed})}, event)
 		default:
 			return fmt.Errorf("bad origin %q", fs[4])
 		}
@@ -1271,6 +1461,7 @@ func (r *vkRunner) runHistFile(path string) error {
 		return err
 	}
 	defer f.Close()
+	r.inHist = false
 	sc := bufio.NewScanner(f)
 	sc.Buffer(make([]byte, 1<<22), 1<<22)
 	ln := 0
@@ -1291,12 +1482,21 @@ func (r *vkRunner) runHistFile(path string) error {
 	return sc.Err()
 }
 
-// ---------------------------------------------------------------- generation loop
-func (r *vkRunner) genRound(g *vkRng) {
+// ---------------------------------------------------------------- generation
+// one round of the random generator: a fixture, or a fresh random type, with
+// several values and locators
+func (r *vkRunner) genRound(g *vkRng) []vkCase {
+	var out []vkCase
 	c := &vkGen{g: g, nilPct: []int{0, 5, 15, 15, 30, 50}[g.intn(6)]}
 	// fixture round?
 	if g.pct(22) {
-		fx := &vkFixtures[g.intn(len(vkFixtures))]
+		k := g.intn(len(vkFixtures) + len(vkTwinFixtures)/2)
+		var fx *vkFixture
+		if k < len(vkFixtures) {
+			fx = &vkFixtures[k]
+		} else {
+			fx = &vkTwinFixtures[g.intn(len(vkTwinFixtures))]
+		}
 		for k := 0; k < 4; k++ {
 			seed := g.next() >> 12
 			msg := fx.build(&vkRng{s: seed})
@@ -1312,9 +1512,9 @@ func (r *vkRunner) genRound(g *vkRng) {
 				loc, mut = vkMutate(g, path)
 				r.count("mutation:" + mut)
 			}
-			r.runKeys("x", loc, fmt.Sprintf("X %s %d", fx.name, seed), msg)
+			out = append(out, vkCase{"x", loc, fmt.Sprintf("X %s %d", fx.name, seed), msg})
 		}
-		return
+		return out
 	}
 	// a fresh random type, several values and locators on it
 	var t reflect.Type
@@ -1335,7 +1535,7 @@ func (r *vkRunner) genRound(g *vkRng) {
 		}
 	}()
 	if t == nil {
-		return
+		return nil
 	}
 	for k := 0; k < 6; k++ {
 		v := c.value(t, 8)
@@ -1347,10 +1547,73 @@ func (r *vkRunner) genRound(g *vkRng) {
 		if g.pct(35) {
 			loc, mut := vkMutate(g, path)
 			r.count("mutation:" + mut)
-			r.runKeys("m", loc, "G", msg)
+			out = append(out, vkCase{"m", loc, "G", msg})
 		} else {
-			r.runKeys("v", strings.Join(path, "."), "G", msg)
+			out = append(out, vkCase{"v", strings.Join(path, "."), "G", msg})
 		}
+	}
+	return out
+}
+
+func vkShuffleStrings(g *vkRng, xs []string) []string {
+	p := make([]string, len(xs))
+	copy(p, xs)
+	for i := len(p) - 1; i > 0; i-- {
+		j := g.intn(i + 1)
+		p[i], p[j] = p[j], p[i]
+	}
+	return p
+}
+
+// a block of alternating calls on the twin types: for every family and every
+// locator, each member of the family in a random order (so that for some
+// locators type A is seen first and for others type B), a few locators twice
+func vkTwinBlock(g *vkRng) []vkCase {
+	var out []vkCase
+	for _, fam := range vkTwinFamilies {
+		locs := vkShuffleStrings(g, fam.locs)
+		locs = append(locs, locs[g.intn(len(locs))], locs[g.intn(len(locs))])
+		for _, loc := range locs {
+			for _, name := range vkShuffleStrings(g, fam.members) {
+				seed := g.next() >> 12
+				fx := vkFixtureByName(name)
+				l := loc
+				if g.pct(10) {
+					l, _ = vkMutate(g, strings.Split(loc, "."))
+				}
+				out = append(out, vkCase{"s", l, fmt.Sprintf("X %s %d", name, seed), fx.build(&vkRng{s: seed})})
+			}
+		}
+	}
+	return out
+}
+
+// The stateful history: ONE multi-event history, run before anything else in
+// the process (so every prefix of it reproduces in a fresh process): twin
+// block, a sample of m random cases, twin block, the same m cases again in a
+// different order, twin block.  Every event is an ordinary case checked
+// against the (pure) model and spec, and equal inputs must give equal results.
+func (r *vkRunner) statefulHistory(g *vkRng, m int) {
+	var sample []vkCase
+	for len(sample) < m {
+		sample = append(sample, r.genRound(g)...)
+	}
+	seq := vkTwinBlock(g)
+	seq = append(seq, sample...)
+	seq = append(seq, vkTwinBlock(g)...)
+	second := make([]vkCase, len(sample))
+	copy(second, sample)
+	for i := len(second) - 1; i > 0; i-- {
+		j := g.intn(i + 1)
+		second[i], second[j] = second[j], second[i]
+	}
+	seq = append(seq, second...)
+	seq = append(seq, vkTwinBlock(g)...)
+	for i, c := range seq {
+		if c.stream != "s" {
+			c.stream = "s" + c.stream
+		}
+		r.runKeys(c, i > 0)
 	}
 }
 
@@ -1393,8 +1656,19 @@ func TestVerifKeys(t *testing.T) {
 	w := bufio.NewWriterSize(f, 1<<20)
 	defer w.Flush()
 	r := &vkRunner{w: w, stats: map[string]int{}}
+	g := &vkRng{s: uint64(vkEnvInt("VERIF_SEED", 1))}
+	n := vkEnvInt("VERIF_N", 0)
 
-	// 1. corpus / replay files first
+	// 0. the stateful history, in a pristine process (before the corpus: a
+	// replay of any prefix of it must see the same process state)
+	if n > 0 && os.Getenv("VERIF_KEYS_NOSTATEFUL") == "" {
+		m := n / 10
+		if m > 1000 {
+			m = 1000
+		}
+		r.statefulHistory(g, m)
+	}
+	// 1. corpus / replay files
 	for _, p := range strings.Split(os.Getenv("VERIF_HIST"), ":") {
 		if p == "" {
 			continue
@@ -1410,17 +1684,31 @@ func TestVerifKeys(t *testing.T) {
 			}
 		}
 	}
-	// 2. seeded random cases
-	g := &vkRng{s: uint64(vkEnvInt("VERIF_SEED", 1))}
-	n := vkEnvInt("VERIF_N", 0)
+	// 2. seeded random cases, one single-case history each; a 10% sample is kept
+	var again []vkCase
 	base := r.ncases
 	for r.ncases-base < n {
-		r.genRound(g)
+		for _, c := range r.genRound(g) {
+			r.runKeys(c, false)
+			if g.pct(10) {
+				again = append(again, c)
+			}
+		}
 	}
 	// 3. direct checks of strings.Title / strings.Split against the model
 	for i := 0; i < n/10; i++ {
 		r.runTitle(vkRandText(g))
 		r.runSplit(vkRandText(g))
+	}
+	// 4. the kept sample once more, in a different order, at the end of the run:
+	// the result of a call must not depend on what was extracted before
+	for i := len(again) - 1; i > 0; i-- {
+		j := g.intn(i + 1)
+		again[i], again[j] = again[j], again[i]
+	}
+	for _, c := range again {
+		c.stream = "r"
+		r.runKeys(c, false)
 	}
 	// input distribution
 	keys := make([]string, 0, len(r.stats))
